@@ -938,6 +938,12 @@ def ind(op, lhs, rhs):
     if n is not None:
         v = {"le": n <= 0, "lt": n < 0, "eq": n == 0}[op]
         return Poly.const(1 if v else 0)
+    if len(d.t) == 1:
+        # a single monomial of strictly positive atoms has the sign of its coefficient
+        ((m0, c0_),) = d.t.items()
+        if c0_.im == 0 and all(_atom_pos(a) for a, _ in m0):
+            v = {"le": c0_.re <= 0, "lt": c0_.re < 0, "eq": False}[op]
+            return Poly.const(1 if v else 0)
     if op == "eq":
         # canonical orientation: d == 0 with d primitive and without factors known to be non-zero
         if len(d.t) > 1:
